@@ -7,6 +7,7 @@ import (
 	"go/constant"
 	"go/token"
 	"go/types"
+	"regexp"
 	"sort"
 	"strings"
 
@@ -284,39 +285,88 @@ func checkMakeRootLink(c *Ctx, fn *ssa.Function, sts []fxFieldStore) {
 	}
 }
 
-func checkLoadMastRoot(c *Ctx, fn *ssa.Function, recv *ssa.Parameter, sts []fxFieldStore) {
-	isLinkLoad := func(v ssa.Value) bool {
-		p, path, ok := fxParamField(v)
+// rootLeaf is one value Mast.root can take, with the predicate recognising a
+// read of Root.Link in the function the value lives in.
+type rootLeaf struct {
+	val        ssa.Value
+	isLinkLoad func(ssa.Value) bool
+}
+
+// rootLeaves evaluates v (or, when v is nil, what fn returns as result #0)
+// assuming Root.Link is nil / non-nil. recv is the parameter of fn holding the
+// *Root. A value produced by a static in-repo helper that receives the same
+// *Root is followed into the helper (depth ≤ 2).
+func rootLeaves(fn *ssa.Function, recv *ssa.Parameter, v ssa.Value, wantNil bool, depth int) (leaves []rootLeaf, open ssa.Value) {
+	isLinkLoad := func(x ssa.Value) bool {
+		p, path, ok := fxParamField(x)
 		return ok && p == recv && path == "Link"
 	}
+	as := &fxAssume{
+		decide: func(cond ssa.Value) (bool, bool) {
+			if x, tnn, ok := ir.NilTest(cond); ok && isLinkLoad(x) {
+				return tnn != wantNil, true
+			}
+			return false, false
+		},
+		relevant: func(cond ssa.Value) bool { return mentionsValue(cond, isLinkLoad, 0) },
+	}
+	reach := as.reach(fn.Blocks[0])
+	if o := as.open(reach); len(o) > 0 {
+		return nil, o[0]
+	}
+	var vals []ssa.Value
+	if v != nil {
+		vals = as.leaves(v, reach)
+	} else {
+		for _, r := range ir.Returns(fn) {
+			if reach[r.Block()] && len(r.Results) > 0 {
+				vals = append(vals, as.leaves(r.Results[0], reach)...)
+			}
+		}
+	}
+	for _, l := range vals {
+		if call, idx := fxCallOf(fxStripNoConv(l)); call != nil && idx == 0 && depth < 2 {
+			if callee := ir.Callee(call.Call); callee != nil && fxOwnFunc(callee) {
+				followed := false
+				for i, a := range call.Call.Args {
+					if ir.ResolveCell(a) == ssa.Value(recv) && i < len(callee.Params) {
+						sub, o := rootLeaves(callee, callee.Params[i], nil, wantNil, depth+1)
+						if o != nil {
+							return nil, o
+						}
+						leaves = append(leaves, sub...)
+						followed = true
+					}
+				}
+				if followed {
+					continue
+				}
+			}
+		}
+		leaves = append(leaves, rootLeaf{l, isLinkLoad})
+	}
+	return leaves, nil
+}
+
+func checkLoadMastRoot(c *Ctx, fn *ssa.Function, recv *ssa.Parameter, sts []fxFieldStore) {
 	for _, s := range sts {
 		for _, wantNil := range []bool{false, true} {
-			as := &fxAssume{
-				decide: func(cond ssa.Value) (bool, bool) {
-					if v, tnn, ok := ir.NilTest(cond); ok && isLinkLoad(v) {
-						return tnn != wantNil, true
-					}
-					return false, false
-				},
-				relevant: func(cond ssa.Value) bool { return mentionsValue(cond, isLinkLoad, 0) },
-			}
-			reach := as.reach(fn.Blocks[0])
 			construct := "Mast.root when Link " + map[bool]string{true: "nil", false: "non-nil"}[wantNil]
 			pos := c.P.InstrPos(s.St)
-			if open := as.open(reach); len(open) > 0 {
-				c.Undecided(fn, fxValPos(c.P, open[0], fn), construct, "test on Root.Link not decided: "+ir.Sym(open[0]))
+			lv, open := rootLeaves(fn, recv, s.Val, wantNil, 0)
+			if open != nil {
+				c.Undecided(fn, fxValPos(c.P, open, fn), construct, "test on Root.Link not decided: "+ir.Sym(open))
 				continue
 			}
 			bad := ""
-			lv := as.leaves(s.Val, reach)
 			if len(lv) == 0 {
 				bad = "no value reaches Mast.root"
 			}
 			for _, l := range lv {
-				v := fxStripNoConv(l)
+				v := fxStripNoConv(l.val)
 				if !wantNil {
 					u, ok := v.(*ssa.UnOp)
-					if !ok || u.Op != token.MUL || !isLinkLoad(u.X) {
+					if !ok || u.Op != token.MUL || !l.isLinkLoad(u.X) {
 						bad = "Mast.root is " + ir.Sym(v) + ", not *r.Link"
 					}
 					continue
@@ -325,7 +375,7 @@ func checkLoadMastRoot(c *Ctx, fn *ssa.Function, recv *ssa.Parameter, sts []fxFi
 					continue
 				}
 				call, _ := v.(*ssa.Call)
-				if call == nil || ir.Callee(call.Call) == nil || !ir.IsPtrToNamed(call.Type(), "mastNode") || mentionsValue(call, isLinkLoad, 0) {
+				if call == nil || ir.Callee(call.Call) == nil || !ir.IsPtrToNamed(call.Type(), "mastNode") || mentionsValue(call, l.isLinkLoad, 0) {
 					bad = "Mast.root of an empty root is " + ir.Sym(v) + ", not an empty node"
 				}
 			}
@@ -341,7 +391,9 @@ func checkLoadMastRoot(c *Ctx, fn *ssa.Function, recv *ssa.Parameter, sts []fxFi
 // ---------------------------------------------------------------------------
 // CTOR
 
-type ctorState map[*ssa.Alloc]map[string]bool
+// ctorState: for each tracked struct (a local Mast, or — inside a helper —
+// the pointer parameter standing for it) the abstract values of one field.
+type ctorState map[ssa.Value]map[string]bool
 
 func (s ctorState) clone() ctorState {
 	o := ctorState{}
@@ -373,9 +425,21 @@ func (s ctorState) joinInto(dst ctorState) bool {
 
 type ctorFlow struct {
 	c       *Ctx
-	tracked map[*ssa.Alloc]bool
+	tracked map[ssa.Value]bool
 	field   string
 	isFunc  bool
+	// tr renders a symbolic path of this function in the caller's terms
+	// (helper parameters replaced by the arguments); nil at the top level
+	tr    func(string) string
+	depth int
+}
+
+func (f *ctorFlow) sym(v ssa.Value) string {
+	s := ir.Sym(v)
+	if f.tr != nil {
+		s = f.tr(s)
+	}
+	return s
 }
 
 func (f *ctorFlow) classify(v ssa.Value) string {
@@ -397,8 +461,8 @@ func (f *ctorFlow) classifyDepth(v ssa.Value, depth int) string {
 			k := f.classifyDepth(e, depth+1)
 			if strings.HasPrefix(k, "maybe:") {
 				sym := strings.TrimPrefix(k, "maybe:")
-				isIt := func(x ssa.Value) bool { return ir.Sym(x) == sym }
-				if ir.NonNilAt(pred, sym) || edgeHasNil(pred, phi.Block(), isIt, false) {
+				isIt := func(x ssa.Value) bool { return f.sym(x) == sym }
+				if blockHasNil(pred, isIt, false) || edgeHasNil(pred, phi.Block(), isIt, false) {
 					k = "nonnil"
 				} else if edgeHasNil(pred, phi.Block(), isIt, true) {
 					k = "nil"
@@ -412,7 +476,7 @@ func (f *ctorFlow) classifyDepth(v ssa.Value, depth int) string {
 			return worst
 		}
 		if worst != "nonnil" {
-			return "maybe:" + ir.Sym(v)
+			return "maybe:" + f.sym(v)
 		}
 		return worst
 	}
@@ -428,7 +492,7 @@ func (f *ctorFlow) classifyDepth(v ssa.Value, depth int) string {
 	if _, callee := fxCallee(v); callee != nil && fxReturnedClosure(callee) != nil {
 		return "nonnil"
 	}
-	return "maybe:" + ir.Sym(v)
+	return "maybe:" + f.sym(v)
 }
 
 // transfer applies one instruction to the state.
@@ -438,12 +502,25 @@ func (f *ctorFlow) transfer(st ctorState, ins ssa.Instruction) {
 		if f.tracked[x] {
 			st[x] = map[string]bool{"unset": true}
 		}
+	case *ssa.Call:
+		// the struct's address handed to a static in-repo helper: apply the
+		// helper's effect on the field (depth ≤ 2)
+		callee := ir.Callee(x.Call)
+		if callee == nil || !fxOwnFunc(callee) || f.depth >= 2 {
+			return
+		}
+		for i, arg := range x.Call.Args {
+			if f.tracked[arg] && i < len(callee.Params) {
+				st[arg] = f.calleeEffect(callee, i, x, st[arg])
+			}
+		}
 	case *ssa.Store:
-		if a, ok := x.Addr.(*ssa.Alloc); ok && f.tracked[a] {
+		if f.tracked[x.Addr] {
+			a := x.Addr
 			if u, ok := x.Val.(*ssa.UnOp); ok && u.Op == token.MUL {
-				if src, ok := u.X.(*ssa.Alloc); ok && f.tracked[src] {
+				if f.tracked[u.X] {
 					n := map[string]bool{}
-					for k := range st[src] {
+					for k := range st[u.X] {
 						n[k] = true
 					}
 					st[a] = n
@@ -462,10 +539,13 @@ func (f *ctorFlow) transfer(st ctorState, ins ssa.Instruction) {
 			return
 		}
 		if fa, ok := x.Addr.(*ssa.FieldAddr); ok {
-			if a, ok := fa.X.(*ssa.Alloc); ok && f.tracked[a] && ir.FieldName(fa.X.Type(), fa.Field) == f.field {
+			if a := fa.X; f.tracked[a] && ir.FieldName(fa.X.Type(), fa.Field) == f.field {
 				v := f.classify(x.Val)
-				if strings.HasPrefix(v, "maybe:") && ir.NonNilAt(x.Block(), strings.TrimPrefix(v, "maybe:")) {
-					v = "nonnil" // assigned under a dominating non-nil test of the same value
+				if strings.HasPrefix(v, "maybe:") {
+					sym := strings.TrimPrefix(v, "maybe:")
+					if blockHasNil(x.Block(), func(y ssa.Value) bool { return f.sym(y) == sym }, false) {
+						v = "nonnil" // assigned under a dominating non-nil test of the same value
+					}
 				}
 				st[a] = map[string]bool{v: true}
 			}
@@ -473,24 +553,64 @@ func (f *ctorFlow) transfer(st ctorState, ins ssa.Instruction) {
 	}
 }
 
+// calleeEffect runs the same dataflow inside a helper that receives the
+// tracked struct's address as parameter i, starting from the caller's state,
+// and returns the field's values when the helper returns.
+func (f *ctorFlow) calleeEffect(callee *ssa.Function, i int, call *ssa.Call, inVals map[string]bool) map[string]bool {
+	p := callee.Params[i]
+	type repl struct {
+		re *regexp.Regexp
+		to string
+	}
+	var repls []repl
+	for j, q := range callee.Params {
+		if j < len(call.Call.Args) {
+			repls = append(repls, repl{regexp.MustCompile(`P:` + regexp.QuoteMeta(q.Name()) + `\b`), f.sym(call.Call.Args[j])})
+		}
+	}
+	sub := &ctorFlow{c: f.c, tracked: map[ssa.Value]bool{p: true}, field: f.field, isFunc: f.isFunc, depth: f.depth + 1,
+		tr: func(s string) string {
+			for _, r := range repls {
+				s = r.re.ReplaceAllLiteralString(s, r.to)
+			}
+			return s
+		}}
+	entry := ctorState{p: map[string]bool{}}
+	for k := range inVals {
+		entry[p][k] = true
+	}
+	in := sub.run(callee, entry)
+	out := map[string]bool{}
+	n := 0
+	for _, r := range ir.Returns(callee) {
+		st := sub.at(in, r)
+		if st == nil {
+			continue
+		}
+		n++
+		for k := range st[p] {
+			out[k] = true
+		}
+	}
+	if n == 0 {
+		return inVals
+	}
+	return out
+}
+
 func newCtorFlow(c *Ctx, allocs []*ssa.Alloc, field string, isFunc bool) *ctorFlow {
-	f := &ctorFlow{c: c, tracked: map[*ssa.Alloc]bool{}, field: field, isFunc: isFunc}
+	f := &ctorFlow{c: c, tracked: map[ssa.Value]bool{}, field: field, isFunc: isFunc}
 	for _, a := range allocs {
 		f.tracked[a] = true
 	}
 	return f
 }
 
-// ctorField runs the dataflow for one field of Mast in fn: the abstract values
-// (unset, nil, nonnil, inherited, set, maybe:<sym>) the field of each local
-// Mast may have on entry to each block.
-func ctorField(c *Ctx, fn *ssa.Function, allocs []*ssa.Alloc, field string, isFunc bool) map[*ssa.BasicBlock]ctorState {
-	fl := newCtorFlow(c, allocs, field, isFunc)
+// run is the forward dataflow over fn: the abstract values (unset, nil,
+// nonnil, inherited, set, maybe:<sym>) the field of each tracked struct may
+// have on entry to each block; nil tests refine them per edge.
+func (fl *ctorFlow) run(fn *ssa.Function, entry ctorState) map[*ssa.BasicBlock]ctorState {
 	in := map[*ssa.BasicBlock]ctorState{}
-	entry := ctorState{}
-	for _, a := range allocs {
-		entry[a] = map[string]bool{"unset": true}
-	}
 	in[fn.Blocks[0]] = entry
 	work := []*ssa.BasicBlock{fn.Blocks[0]}
 	for len(work) > 0 {
@@ -502,7 +622,7 @@ func ctorField(c *Ctx, fn *ssa.Function, allocs []*ssa.Alloc, field string, isFu
 		}
 		for _, succ := range b.Succs {
 			out := st
-			if iff, ok := b.Instrs[len(b.Instrs)-1].(*ssa.If); ok && b.Succs[0] != b.Succs[1] && isFunc {
+			if iff, ok := b.Instrs[len(b.Instrs)-1].(*ssa.If); ok && b.Succs[0] != b.Succs[1] && fl.isFunc {
 				if v, tnn, ok := ir.NilTest(iff.Cond); ok {
 					truth := succ == b.Succs[0]
 					repl := map[bool]string{true: "nonnil", false: "nil"}[truth == tnn]
@@ -510,12 +630,12 @@ func ctorField(c *Ctx, fn *ssa.Function, allocs []*ssa.Alloc, field string, isFu
 					// a test of the field itself
 					if u, ok := v.(*ssa.UnOp); ok && u.Op == token.MUL {
 						if fa, ok := u.X.(*ssa.FieldAddr); ok {
-							if a, ok := fa.X.(*ssa.Alloc); ok && fl.tracked[a] && ir.FieldName(fa.X.Type(), fa.Field) == field {
+							if a := fa.X; fl.tracked[a] && ir.FieldName(fa.X.Type(), fa.Field) == fl.field {
 								out[a] = map[string]bool{repl: true}
 							}
 						}
 					}
-					key := "maybe:" + ir.Sym(v)
+					key := "maybe:" + fl.sym(v)
 					for a := range out {
 						if out[a][key] {
 							delete(out[a], key)
@@ -536,14 +656,13 @@ func ctorField(c *Ctx, fn *ssa.Function, allocs []*ssa.Alloc, field string, isFu
 	return in
 }
 
-// ctorStateAt replays the block of `at` up to that instruction.
-func ctorStateAt(c *Ctx, fn *ssa.Function, allocs []*ssa.Alloc, field string, isFunc bool, in map[*ssa.BasicBlock]ctorState, at ssa.Instruction) ctorState {
+// at replays the block of `at` up to that instruction.
+func (fl *ctorFlow) at(in map[*ssa.BasicBlock]ctorState, at ssa.Instruction) ctorState {
 	b := at.Block()
 	if in[b] == nil {
 		return nil
 	}
 	st := in[b].clone()
-	fl := newCtorFlow(c, allocs, field, isFunc)
 	for _, ins := range b.Instrs {
 		if ins == at {
 			break
@@ -551,6 +670,19 @@ func ctorStateAt(c *Ctx, fn *ssa.Function, allocs []*ssa.Alloc, field string, is
 		fl.transfer(st, ins)
 	}
 	return st
+}
+
+func ctorField(c *Ctx, fn *ssa.Function, allocs []*ssa.Alloc, field string, isFunc bool) map[*ssa.BasicBlock]ctorState {
+	fl := newCtorFlow(c, allocs, field, isFunc)
+	entry := ctorState{}
+	for _, a := range allocs {
+		entry[a] = map[string]bool{"unset": true}
+	}
+	return fl.run(fn, entry)
+}
+
+func ctorStateAt(c *Ctx, fn *ssa.Function, allocs []*ssa.Alloc, field string, isFunc bool, in map[*ssa.BasicBlock]ctorState, at ssa.Instruction) ctorState {
+	return newCtorFlow(c, allocs, field, isFunc).at(in, at)
 }
 
 func runCtor(c *Ctx) {
